@@ -509,7 +509,8 @@ impl DebugInformation {
             let unit = self.unit_ensure(*unit_idx);
             for &line_idx in file_lines {
                 let line_row = unit.line(line_idx);
-                if !line_row.is_stmt() {
+                // an end_sequence row is the first address after the code, not a place of its line
+                if !line_row.is_stmt() || line_row.end_sequence() {
                     continue;
                 }
                 let line = line_row.line;
